@@ -575,9 +575,13 @@ def eval_case(ws, case, max_runs=12):
         sites = []
         orig = naming.Namer.new_symbol
 
+        namers = []
+
         def spy(self, name_root, reserved_locals):
             f = sys._getframe(2)     # [spy] <- passes' recorder <- the call site
             sites.append((os.path.basename(f.f_code.co_filename), f.f_code.co_name))
+            if not any(n is self for n in namers):
+                namers.append(self)
             return orig(self, name_root, reserved_locals)
         naming.Namer.new_symbol = spy
         try:
@@ -585,6 +589,8 @@ def eval_case(ws, case, max_runs=12):
         finally:
             naming.Namer.new_symbol = orig
         res['namespace'] = list(tr.namespace)
+        res['namers'] = len(namers)
+        res['generated_final'] = sorted(namers[0].generated_names) if len(namers) == 1 else None
         for k, (root, reserved, result) in enumerate(tr.new_symbols):
             sf = sites[k] if k < len(sites) else ('?', '?')
             res['symbols'].append([root, list(reserved), result, sf[0], sf[1]])
